@@ -15,6 +15,13 @@ def jobs(tier):
         for mode in ('Build', 'InMemoryBuild'):
             js.append({'name': 'lemma self-dependency is reported %s %s' % (kind, mode), 'harness': ('props.fsprops', 'h_deps'),
                        'params': {'mode': mode, 'shape': len(DEP_SHAPES) - 1, 'kind': kind, 'stale_output': False}})
+    # every dependency edge must be reported, whatever the name shape of the producer and wherever the directive stands in
+    # the file (an unreported edge hides a cycle)
+    for shape in range(len(DEP_SHAPES) - 1):
+        for kind in ('include', 'after'):
+            for after in ('include2', 'after2'):
+                js.append({'name': 'lemma every edge is reported shape=%d %s then %s' % (shape, kind, after), 'harness': ('props.fsprops', 'h_deps'),
+                           'params': {'mode': 'Build', 'shape': shape, 'kind': kind, 'after': after}})
     return js
 
 
